@@ -7,6 +7,7 @@ PID = 'C04'
 TARGETS = ['Properties/C04.vo', 'Bridge/IntBridge.vo', 'Bridge/DataBridge.vo', 'Bridge/MoveBridge.vo', 'Bridge/BitsBridge.vo', 'Bridge/CodegenBridge.vo', 'Bridge/PlumbingBridge.vo']
 KERNELS = ['G6_int', 'G8_data', 'G3_move', 'G4_seq', 'G5_bits', 'G11_codegen', 'G19_field_ctor']
 PROP_FILE = 'Properties/C04.v'
+WHOLE_PACKET = True      # Tie A over all of the pack / unpack machinery (check.py: WHOLE_PACKET_KERNELS)
 
 
 def width_family():
